@@ -127,10 +127,12 @@ def build(feats, layout):
     main = "\n".join(lines) + "\n"
     if layout in ("two", "three"):
         # a second file with a same-named private symbol and its own label, and an exported label used across files
-        main += "\tmov #g2, r1\n"
+        main += "\tmov #g2, r1\nsame = 3\n"
+        ref["m.mac"]["same"] = 3
         addr += 4
-        s2 = {"start": addr, "k5": 0o55, "g2": addr + 2}
-        tree["n.mac"] = "start:\tnop\nk5 = 55\ng2::\tnop\n"
+        # ('same' has the same name and the same value in both files: each file's section still lists its own)
+        s2 = {"start": addr, "k5": 0o55, "g2": addr + 2, "same": 3}
+        tree["n.mac"] = "start:\tnop\nk5 = 55\ng2::\tnop\nsame = 3\n"
         addr += 4
         ref["n.mac"] = s2
         files.append("n.mac")
@@ -140,8 +142,8 @@ def build(feats, layout):
         files.append("q.mac")
     if layout == "include":
         main += "\t.include \"i/inc.mac\"\n"
-        tree["i/inc.mac"] = "start:\tnop\nil:\t.word il\nic = 12\n"
-        ref["i/inc.mac"] = {"start": addr, "il": addr + 2, "ic": 0o12}
+        tree["i/inc.mac"] = "start:\tnop\nil:\t.word il\nic = 12\nlate = 1\n"
+        ref["i/inc.mac"] = {"start": addr, "il": addr + 2, "ic": 0o12, "late": 1}
         addr += 4
         # the including file goes on defining symbols after the include
         main += "after:\tnop\nlate = 1\n"
